@@ -25,7 +25,7 @@ func ruleC15(prog *Program, rep *Report) {
 	ruleEntryParity(prog, rep, "oj.Writer", "sen.Writer")
 	ruleUnguardedElem(prog, rep, "oj", "sen", "alt", "pretty")
 	ruleBytesAs(prog, rep)
-	ruleUnsafeFile(prog, rep)
+	ruleUnsafeKind(prog, rep)
 }
 
 // fieldLoops finds `for` loops whose init or condition calls NumField().
